@@ -160,6 +160,13 @@ theorem panic_witness :
     (addEntry s txT .pending 3).2 = .panic := by
   decide +kernel
 
+/-- the same submission under the repaired `check_and_record_ancestors` (work/C11-fix-panic.diff) is
+    rejected (`ExceededMaximumAncestorsCount`) after the eviction, and the pool stays consistent -/
+theorem panic_repaired_witness :
+    let s := run (empty { cfg0 with maxAnc := 2, fixPanic := true } [0]) [.add txA .pending 1, .add tx11 .pending 2]
+    (addEntry s txT .pending 3).2 = .rejAnc ∧ aggOK (addEntry s txT .pending 3).1 = true := by
+  decide +kernel
+
 /-! ## replacement (RBF) -/
 
 /-- the transactions a replacement removes: the conflicting ones and their pooled descendants -/
